@@ -89,6 +89,10 @@ type Engine struct {
 	ByFn         map[*ssa.Function]*FnContract
 	Blocks       []*contract.Block
 	Uninterp     map[*ssa.Function]bool // spec functions marked //gvc:uninterpreted
+	Opaque       map[*ssa.Function]bool // spec functions marked //gvc:opaque (definition revealed on request)
+	skMemo       map[*smt.Term]*smt.Term
+	NoEffect     map[string]string // interface method names assumed to have no effect (stdlib.gvc: noeffect)
+	DefEqs       map[*smt.Term][2]*smt.Term // definitional equalities of revealed opaque applications
 	GhostAcc     map[*ssa.Function]bool // //gvc:ghost accessors
 	Overlay      map[string][]byte
 	GenSrc       map[string]string
@@ -117,7 +121,7 @@ func NewEngine(cfg Config) *Engine {
 	ctx := smt.NewCtx()
 	trueTerm, falseTerm = ctx.True(), ctx.False()
 	return &Engine{Cfg: cfg, C: ctx, Contracts: map[string]*FnContract{}, ByFn: map[*ssa.Function]*FnContract{},
-		Uninterp: map[*ssa.Function]bool{}, GhostAcc: map[*ssa.Function]bool{}, Overlay: map[string][]byte{}, GenSrc: map[string]string{},
+		Uninterp: map[*ssa.Function]bool{}, Opaque: map[*ssa.Function]bool{}, DefEqs: map[*smt.Term][2]*smt.Term{}, skMemo: map[*smt.Term]*smt.Term{}, NoEffect: map[string]string{}, GhostAcc: map[*ssa.Function]bool{}, Overlay: map[string][]byte{}, GenSrc: map[string]string{},
 		strLits: map[string]*smt.Term{}, globalsSeen: map[string]*smt.Term{}, Stats: map[string]int{}, headStates: map[string]*State{}, UsedAssumed: map[string]bool{}, foreignGlobals: map[string]bool{}, vaMemo: map[*smt.Term][]*smt.Term{}, kindIdx: map[string]int{}}
 }
 
@@ -383,6 +387,10 @@ func (e *Engine) generate() error {
 	mainT := e.Pkgs[MainPkg].Types
 	n := 0
 	for _, b := range e.Blocks {
+		if b.Kind == "noeffect" {
+			e.NoEffect[b.Name] = strings.Join(b.Notes, " ")
+			continue
+		}
 		fc := &FnContract{B: b, Loops: map[int]*LoopContract{}}
 		var home *types.Package = mainT
 		var sig *types.Signature
@@ -622,11 +630,13 @@ func (e *Engine) generate() error {
 					return fmt.Errorf("%s:%d: %v", c.File, c.Line, err)
 				}
 				var sb strings.Builder
-				for i, p := range ps {
-					if err := addParam(&sb, p.name, p.t); err != nil {
-						return err
+				if c.Kind == contract.Modifies {
+					for i, p := range ps {
+						if err := addParam(&sb, p.name, p.t); err != nil {
+							return err
+						}
+						cf.Vars = append(cf.Vars, VarRef{Name: p.name, Kind: "param", Idx: i, Type: p.t})
 					}
-					cf.Vars = append(cf.Vars, VarRef{Name: p.name, Kind: "param", Idx: i, Type: p.t})
 				}
 				if c.Kind == contract.LoopModifies {
 					// locals referenced by the items
@@ -639,7 +649,8 @@ func (e *Engine) generate() error {
 							ids[k] = true
 						}
 					}
-					if err := e.addLocals(&sb, cf, ids, pnames, loops[c.Loop-1], info, addParam, true); err != nil {
+					// names (parameters included: they are mutable) denote the values at the loop head
+					if err := e.addLocals(&sb, cf, ids, pnames, loops[c.Loop-1], info, addParam, false); err != nil {
 						return err
 					}
 				}
@@ -1000,6 +1011,9 @@ func (e *Engine) resolve() error {
 				for _, c := range fd.Doc.List {
 					if strings.HasPrefix(c.Text, "//gvc:uninterpreted") {
 						e.Uninterp[fn] = true
+					}
+					if strings.HasPrefix(c.Text, "//gvc:opaque") {
+						e.Opaque[fn] = true
 					}
 					if strings.HasPrefix(c.Text, "//gvc:ghost") {
 						e.GhostAcc[fn] = true
